@@ -451,6 +451,16 @@ def gen_world(seed, profile="greedy", opts=None):
                 profiles[pname]["loading"] = [
                     {"req": {f"{rl.choice(cluster['types'])}:any": rl.choice([1, 1, 2])},
                      "runtime": rl.choice([0, 1, 3]), "batch": 1} for _ in range(rl.choice([1, 2]))]
+    if profile == "plan" and opts.get("p_plan_batching") and policy["name"] in ("ILP", "TetriSchedCPLEX"):
+        # the planners' own batching option: tasks of one work profile may share one BatchStrategy
+        rb = random.Random(f"{seed}:planbatch")
+        if rb.random() < opts["p_plan_batching"]:
+            policy["batching"] = True
+            for pname in sorted(profiles):
+                for k_, st in enumerate(profiles[pname]["strategies"]):
+                    # every profile keeps a strategy a single task can use (the planners' batching code
+                    # takes min() over the strategies whose batch size fits the tasks at hand)
+                    st["batch"] = 1 if k_ == 0 else rb.choice([1, 2, 2, 3])
     if profile == "chaos" and policy.get("p_batch"):
         rb = random.Random(f"{seed}:batchsize")
         for pname in sorted(profiles):
@@ -686,5 +696,31 @@ def gen_clockwork_world(seed, opts=None):
              "policy": {"name": "Clockwork", "runtime": 0, "goal": r.choice(["clockwork", "least_slack"]),
                         "enforce_deadlines": True},
              "faults": gen_faults(r, "clockwork", opts), "loader": {"kind": "static"}, "preload": pre}
+    if opts.get("batch_planner"):
+        # the same request streams (single-task graphs of a few models with batch-size strategies, deadlines
+        # around the boundary) under a planner with its batching option instead of Clockwork
+        rp = random.Random(f"{seed}:batch_planner")
+        world["profile"] = "plan"
+        world["policy"] = {"name": opts["batch_planner"], "runtime": 0, "batching": True, "enforce_deadlines": True,
+                           "retract": rp.random() < 0.3, "lookahead": rp.choice([0, 0, 2]),
+                           "plan_ahead": rp.choice([8, 12, 16]), "discretization": 1, "branch_policy": "worst"}
+        world["preload"] = []
+        if rp.random() < 0.7:
+            # one worker: a batch planned for later (the worker is busy) meets later arrivals
+            cluster["pools"] = [dict(pools[0], workers=pools[0]["workers"][:1])]
+        for g in graphs:
+            if g["release"]["type"] == "fixed" and g["release"]["period"] == 0 and rp.random() < 0.7:
+                g["release"]["period"] = rp.choice([1, 2, 3])
+        flags["scheduler_run_load"] = False
+        flags["scheduler_delay"] = 0
+        for p in profiles.values():
+            p.pop("loading", None)
+            if not any(st["batch"] == 1 for st in p["strategies"]):
+                min(p["strategies"], key=lambda st: st["batch"])["batch"] = 1
+        for g in graphs:
+            g["release"]["invocations"] = min(g["release"]["invocations"], 4)
+            if "concurrency" in g["release"]:
+                g["release"]["concurrency"] = min(g["release"]["concurrency"], g["release"]["invocations"])
+        world["faults"]["solver_chaos"] = {"on": False, "p": 0.0}
     sanitize(world)
     return world
